@@ -44,7 +44,7 @@ From Coq Require Import Floats.SpecFloat.
 From stdpp Require Import gmap.
 Local Open Scope Z_scope.
 
-Module CO := CJ.CoreOps.
+
 
 (** * what the caller sees of the heap *)
 Record view : Type := mkView {
@@ -79,22 +79,22 @@ Inductive kind : Type :=
 
 Record trans : Type := mkT {
   t_pre : list bytes;          (* caller strings declared before the call, in order *)
-  t_st : CO.state;             (* the pools after these declarations *)
+  t_st : CoreOps.state;             (* the pools after these declarations *)
   t_main : option op3;         (* the call *)
   t_kind : kind
 }.
 
 (** a string argument: the pointer it denotes, the strings declared, the pools and the view after *)
-Definition tr_str (V : view) (st : CO.state) (s : CO.sarg) : option (ptr * list bytes * CO.state * view) :=
+Definition tr_str (V : view) (st : CoreOps.state) (s : CoreOps.sarg) : option (ptr * list bytes * CoreOps.state * view) :=
   match s with
-  | CO.SNull => Some (None, [], st, V)
-  | CO.SPool k => Some (nth k (CO.st_strs st) None, [], st, V)
-  | CO.SLit b => Some (Some (v_next V), [b ++ [0]], CO.push_str st (Some (v_next V)), view_bump V)
-  | CO.SKeyOf k => match v_key V (nth k (CO.st_items st) None) with Some q => Some (q, [], st, V) | None => None end
-  | CO.SValOf k => match v_val V (nth k (CO.st_items st) None) with Some q => Some (q, [], st, V) | None => None end
+  | CoreOps.SNull => Some (None, [], st, V)
+  | CoreOps.SPool k => Some (nth k (CoreOps.st_strs st) None, [], st, V)
+  | CoreOps.SLit b => Some (Some (v_next V), [b ++ [0]], CoreOps.push_str st (Some (v_next V)), view_bump V)
+  | CoreOps.SKeyOf k => match v_key V (nth k (CoreOps.st_items st) None) with Some q => Some (q, [], st, V) | None => None end
+  | CoreOps.SValOf k => match v_val V (nth k (CoreOps.st_items st) None) with Some q => Some (q, [], st, V) | None => None end
   end.
 
-Fixpoint tr_strs (V : view) (st : CO.state) (l : list CO.sarg) : option (list ptr * list bytes * CO.state * view) :=
+Fixpoint tr_strs (V : view) (st : CoreOps.state) (l : list CoreOps.sarg) : option (list ptr * list bytes * CoreOps.state * view) :=
   match l with
   | [] => Some ([], [], st, V)
   | a :: r =>
@@ -109,13 +109,13 @@ Fixpoint tr_strs (V : view) (st : CO.state) (l : list CO.sarg) : option (list pt
   end.
 
 (** the three shapes of a translated call: no string argument, one, two *)
-Definition T0 (st : CO.state) (k : kind) (m : op3) : option trans := Some (mkT [] st (Some m) k).
-Definition T1 (V : view) (st : CO.state) (s : CO.sarg) (k : kind) (f : ptr -> op3) : option trans :=
+Definition T0 (st : CoreOps.state) (k : kind) (m : op3) : option trans := Some (mkT [] st (Some m) k).
+Definition T1 (V : view) (st : CoreOps.state) (s : CoreOps.sarg) (k : kind) (f : ptr -> op3) : option trans :=
   match tr_str V st s with
   | Some (p, pre, st1, _) => Some (mkT pre st1 (Some (f p)) k)
   | None => None
   end.
-Definition T2 (V : view) (st : CO.state) (s v : CO.sarg) (k : kind) (f : ptr -> ptr -> op3) : option trans :=
+Definition T2 (V : view) (st : CoreOps.state) (s v : CoreOps.sarg) (k : kind) (f : ptr -> ptr -> op3) : option trans :=
   match tr_str V st s with
   | Some (p, pre1, st1, V1) =>
       match tr_str V1 st1 v with
@@ -127,73 +127,73 @@ Definition T2 (V : view) (st : CO.state) (s v : CO.sarg) (k : kind) (f : ptr -> 
 
 Definition A3 (o : op) : op3 := O2 (OArr o).
 
-Definition tr (V : view) (st : CO.state) (o : CO.op) : option trans :=
-  let I := CO.item_of st in
+Definition tr (V : view) (st : CoreOps.state) (o : CoreOps.op) : option trans :=
+  let I := CoreOps.item_of st in
   match o with
-  | CO.OCreateNull => T0 st KPush (A3 (OCreate c_cJSON_NULL))
-  | CO.OCreateTrue => T0 st KPush (A3 (OCreate c_cJSON_True))
-  | CO.OCreateFalse => T0 st KPush (A3 (OCreate c_cJSON_False))
-  | CO.OCreateBool b => T0 st KPush (A3 (OCreate (if b then c_cJSON_True else c_cJSON_False)))
-  | CO.OCreateNumber d => T0 st KPush (OCreateNumber d)
-  | CO.OCreateString s => T1 V st s KPush OCreateString
-  | CO.OCreateRaw s => T1 V st s KPush OCreateRaw
-  | CO.OCreateArray => T0 st KPush (A3 (OCreate c_cJSON_Array))
-  | CO.OCreateObject => T0 st KPush (A3 (OCreate c_cJSON_Object))
-  | CO.OCreateStringReference s => T1 V st s KPush OCreateStringReference
-  | CO.OCreateObjectReference c => T0 st KPush (OCreateObjectReference (I c))
-  | CO.OCreateArrayReference c => T0 st KPush (OCreateArrayReference (I c))
-  | CO.OCreateIntArray nums count => T0 st KPush (OCreateIntArray nums count)
-  | CO.OCreateFloatArray nums count => T0 st KPush (OCreateFloatArray nums count)
-  | CO.OCreateDoubleArray nums count => T0 st KPush (OCreateDoubleArray nums count)
-  | CO.OCreateStringArray None count => T0 st KPush (OCreateStringArray None count)
-  | CO.OCreateStringArray (Some l) count =>
+  | CoreOps.OCreateNull => T0 st KPush (A3 (OCreate c_cJSON_NULL))
+  | CoreOps.OCreateTrue => T0 st KPush (A3 (OCreate c_cJSON_True))
+  | CoreOps.OCreateFalse => T0 st KPush (A3 (OCreate c_cJSON_False))
+  | CoreOps.OCreateBool b => T0 st KPush (A3 (OCreate (if b then c_cJSON_True else c_cJSON_False)))
+  | CoreOps.OCreateNumber d => T0 st KPush (OCreateNumber d)
+  | CoreOps.OCreateString s => T1 V st s KPush OCreateString
+  | CoreOps.OCreateRaw s => T1 V st s KPush OCreateRaw
+  | CoreOps.OCreateArray => T0 st KPush (A3 (OCreate c_cJSON_Array))
+  | CoreOps.OCreateObject => T0 st KPush (A3 (OCreate c_cJSON_Object))
+  | CoreOps.OCreateStringReference s => T1 V st s KPush OCreateStringReference
+  | CoreOps.OCreateObjectReference c => T0 st KPush (OCreateObjectReference (I c))
+  | CoreOps.OCreateArrayReference c => T0 st KPush (OCreateArrayReference (I c))
+  | CoreOps.OCreateIntArray nums count => T0 st KPush (OCreateIntArray nums count)
+  | CoreOps.OCreateFloatArray nums count => T0 st KPush (OCreateFloatArray nums count)
+  | CoreOps.OCreateDoubleArray nums count => T0 st KPush (OCreateDoubleArray nums count)
+  | CoreOps.OCreateStringArray None count => T0 st KPush (OCreateStringArray None count)
+  | CoreOps.OCreateStringArray (Some l) count =>
       match tr_strs V st l with
       | Some (ps, pre, st1, _) => Some (mkT pre st1 (Some (OCreateStringArray (Some ps) count)) KPush)
       | None => None
       end
-  | CO.ODuplicate _ _ => None
-  | CO.OAddItemToArray a i => T0 st KFlag (A3 (OAdd (I a) (I i)))
-  | CO.OAddItemToObject ob s i => T1 V st s KFlag (fun p => O2 (OAddObj (I ob) p (I i) false))
-  | CO.OAddItemToObjectCS ob s i => T1 V st s KFlag (fun p => O2 (OAddObj (I ob) p (I i) true))
-  | CO.OAddItemReferenceToArray a i => T0 st KFlag (OAddItemReferenceToArray (I a) (I i))
-  | CO.OAddItemReferenceToObject ob s i => T1 V st s KFlag (fun p => OAddItemReferenceToObject (I ob) p (I i))
-  | CO.OAddNullToObject ob s => T1 V st s KPush (fun p => OAddToObject KNull (I ob) p)
-  | CO.OAddTrueToObject ob s => T1 V st s KPush (fun p => OAddToObject KTrue (I ob) p)
-  | CO.OAddFalseToObject ob s => T1 V st s KPush (fun p => OAddToObject KFalse (I ob) p)
-  | CO.OAddBoolToObject ob s b => T1 V st s KPush (fun p => OAddToObject (KBool b) (I ob) p)
-  | CO.OAddNumberToObject ob s d => T1 V st s KPush (fun p => OAddToObject (KNumber d) (I ob) p)
-  | CO.OAddStringToObject ob s v => T2 V st s v KPush (fun p q => OAddToObject (KString q) (I ob) p)
-  | CO.OAddRawToObject ob s v => T2 V st s v KPush (fun p q => OAddToObject (KRaw q) (I ob) p)
-  | CO.OAddObjectToObject ob s => T1 V st s KPush (fun p => OAddToObject KObject (I ob) p)
-  | CO.OAddArrayToObject ob s => T1 V st s KPush (fun p => OAddToObject KArray (I ob) p)
-  | CO.ODetachItemViaPointer p i => T0 st KPush (A3 (ODetach (I p) (I i)))
-  | CO.ODetachItemFromArray a which => T0 st KPush (A3 (ODetachIdx (I a) which))
-  | CO.ODetachItemFromObject ob s => T1 V st s KPush (fun p => O2 (ODetachKey (I ob) p false))
-  | CO.ODetachItemFromObjectCaseSensitive ob s => T1 V st s KPush (fun p => O2 (ODetachKey (I ob) p true))
-  | CO.ODelete i => T0 st KUnit (A3 (ODelete (I i)))
-  | CO.ODeleteItemFromArray a which => T0 st KUnit (A3 (ODeleteIdx (I a) which))
-  | CO.ODeleteItemFromObject ob s => T1 V st s KUnit (fun p => O2 (ODeleteKey (I ob) p false))
-  | CO.ODeleteItemFromObjectCaseSensitive ob s => T1 V st s KUnit (fun p => O2 (ODeleteKey (I ob) p true))
-  | CO.OInsertItemInArray a which i => T0 st KFlag (A3 (OInsert (I a) which (I i)))
-  | CO.OReplaceItemViaPointer p i r => T0 st KFlag (A3 (OReplace (I p) (I i) (I r)))
-  | CO.OReplaceItemInArray a which r => T0 st KFlag (A3 (OReplaceIdx (I a) which (I r)))
-  | CO.OReplaceItemInObject ob s r => T1 V st s KFlag (fun p => OReplaceItemInObject (I ob) p (I r) false)
-  | CO.OReplaceItemInObjectCaseSensitive ob s r => T1 V st s KFlag (fun p => OReplaceItemInObject (I ob) p (I r) true)
-  | CO.OGetArraySize a => T0 st KInt (A3 (OSize (I a)))
-  | CO.OGetArrayItem a index => T0 st KPush (A3 (OGet (I a) index))
-  | CO.OGetObjectItem ob s => T1 V st s KPush (fun p => O2 (OGetKey (I ob) p false))
-  | CO.OGetObjectItemCaseSensitive ob s => T1 V st s KPush (fun p => O2 (OGetKey (I ob) p true))
-  | CO.OHasObjectItem ob s => T1 V st s KFlag (fun p => OHasObjectItem (I ob) p)
-  | CO.OGetStringValue i => T0 st KStr (OGetStringValue (I i))
-  | CO.OGetNumberValue i => T0 st KDbl (OGetNumberValue (I i))
-  | CO.OArrayForEach a => Some (mkT [] st None (KEach (I a)))
-  | CO.OSetNumberValue i d => T0 st KDbl (OSetNumberValue (I i) d)
-  | CO.OSetIntValue i n => T0 st KInt (OSetIntValue (I i) n)
-  | CO.OSetValuestring i s => T1 V st s KStr (fun p => OSetValuestring (I i) p)
-  | CO.OSetBoolValue i b => T0 st KInt (OSetBoolValue (I i) b)
-  | CO.OInitHooks _ | CO.OMalloc _ | CO.OFree _ => None
-  | CO.OString b => Some (mkT [b ++ [0]] (CO.push_str st (Some (v_next V))) None KUnit)
-  | CO.OSetChildRaw _ _ | CO.OSetLinksRaw _ _ _ | CO.OChain _ | CO.OChildDepth _ => None
+  | CoreOps.ODuplicate _ _ => None
+  | CoreOps.OAddItemToArray a i => T0 st KFlag (A3 (OAdd (I a) (I i)))
+  | CoreOps.OAddItemToObject ob s i => T1 V st s KFlag (fun p => O2 (OAddObj (I ob) p (I i) false))
+  | CoreOps.OAddItemToObjectCS ob s i => T1 V st s KFlag (fun p => O2 (OAddObj (I ob) p (I i) true))
+  | CoreOps.OAddItemReferenceToArray a i => T0 st KFlag (OAddItemReferenceToArray (I a) (I i))
+  | CoreOps.OAddItemReferenceToObject ob s i => T1 V st s KFlag (fun p => OAddItemReferenceToObject (I ob) p (I i))
+  | CoreOps.OAddNullToObject ob s => T1 V st s KPush (fun p => OAddToObject KNull (I ob) p)
+  | CoreOps.OAddTrueToObject ob s => T1 V st s KPush (fun p => OAddToObject KTrue (I ob) p)
+  | CoreOps.OAddFalseToObject ob s => T1 V st s KPush (fun p => OAddToObject KFalse (I ob) p)
+  | CoreOps.OAddBoolToObject ob s b => T1 V st s KPush (fun p => OAddToObject (KBool b) (I ob) p)
+  | CoreOps.OAddNumberToObject ob s d => T1 V st s KPush (fun p => OAddToObject (KNumber d) (I ob) p)
+  | CoreOps.OAddStringToObject ob s v => T2 V st s v KPush (fun p q => OAddToObject (KString q) (I ob) p)
+  | CoreOps.OAddRawToObject ob s v => T2 V st s v KPush (fun p q => OAddToObject (KRaw q) (I ob) p)
+  | CoreOps.OAddObjectToObject ob s => T1 V st s KPush (fun p => OAddToObject KObject (I ob) p)
+  | CoreOps.OAddArrayToObject ob s => T1 V st s KPush (fun p => OAddToObject KArray (I ob) p)
+  | CoreOps.ODetachItemViaPointer p i => T0 st KPush (A3 (ODetach (I p) (I i)))
+  | CoreOps.ODetachItemFromArray a which => T0 st KPush (A3 (ODetachIdx (I a) which))
+  | CoreOps.ODetachItemFromObject ob s => T1 V st s KPush (fun p => O2 (ODetachKey (I ob) p false))
+  | CoreOps.ODetachItemFromObjectCaseSensitive ob s => T1 V st s KPush (fun p => O2 (ODetachKey (I ob) p true))
+  | CoreOps.ODelete i => T0 st KUnit (A3 (ODelete (I i)))
+  | CoreOps.ODeleteItemFromArray a which => T0 st KUnit (A3 (ODeleteIdx (I a) which))
+  | CoreOps.ODeleteItemFromObject ob s => T1 V st s KUnit (fun p => O2 (ODeleteKey (I ob) p false))
+  | CoreOps.ODeleteItemFromObjectCaseSensitive ob s => T1 V st s KUnit (fun p => O2 (ODeleteKey (I ob) p true))
+  | CoreOps.OInsertItemInArray a which i => T0 st KFlag (A3 (OInsert (I a) which (I i)))
+  | CoreOps.OReplaceItemViaPointer p i r => T0 st KFlag (A3 (OReplace (I p) (I i) (I r)))
+  | CoreOps.OReplaceItemInArray a which r => T0 st KFlag (A3 (OReplaceIdx (I a) which (I r)))
+  | CoreOps.OReplaceItemInObject ob s r => T1 V st s KFlag (fun p => OReplaceItemInObject (I ob) p (I r) false)
+  | CoreOps.OReplaceItemInObjectCaseSensitive ob s r => T1 V st s KFlag (fun p => OReplaceItemInObject (I ob) p (I r) true)
+  | CoreOps.OGetArraySize a => T0 st KInt (A3 (OSize (I a)))
+  | CoreOps.OGetArrayItem a index => T0 st KPush (A3 (OGet (I a) index))
+  | CoreOps.OGetObjectItem ob s => T1 V st s KPush (fun p => O2 (OGetKey (I ob) p false))
+  | CoreOps.OGetObjectItemCaseSensitive ob s => T1 V st s KPush (fun p => O2 (OGetKey (I ob) p true))
+  | CoreOps.OHasObjectItem ob s => T1 V st s KFlag (fun p => OHasObjectItem (I ob) p)
+  | CoreOps.OGetStringValue i => T0 st KStr (OGetStringValue (I i))
+  | CoreOps.OGetNumberValue i => T0 st KDbl (OGetNumberValue (I i))
+  | CoreOps.OArrayForEach a => Some (mkT [] st None (KEach (I a)))
+  | CoreOps.OSetNumberValue i d => T0 st KDbl (OSetNumberValue (I i) d)
+  | CoreOps.OSetIntValue i n => T0 st KInt (OSetIntValue (I i) n)
+  | CoreOps.OSetValuestring i s => T1 V st s KStr (fun p => OSetValuestring (I i) p)
+  | CoreOps.OSetBoolValue i b => T0 st KInt (OSetBoolValue (I i) b)
+  | CoreOps.OInitHooks _ | CoreOps.OMalloc _ | CoreOps.OFree _ => None
+  | CoreOps.OString b => Some (mkT [b ++ [0]] (CoreOps.push_str st (Some (v_next V))) None KUnit)
+  | CoreOps.OSetChildRaw _ _ | CoreOps.OSetLinksRaw _ _ _ | CoreOps.OChain _ | CoreOps.OChildDepth _ => None
   end.
 
 (** the proof-level operations of one translated call, in order *)
@@ -215,31 +215,31 @@ Definition shape (k : kind) (r : res3) : Prop :=
   end.
 
 (** the pools after the call: the returned identity is pushed exactly for the kind [KPush] *)
-Definition new_pools (k : kind) (st : CO.state) (r : res3) : CO.state :=
-  match k with KPush => CO.push_item st (res_ptr3 r) | _ => st end.
+Definition new_pools (k : kind) (st : CoreOps.state) (r : res3) : CoreOps.state :=
+  match k with KPush => CoreOps.push_item st (res_ptr3 r) | _ => st end.
 
 (** what the correspondence-level interpreter does with the proof-level result *)
-Definition finish (k : kind) (st : CO.state) (r : res3) : M (CO.result * CO.state) :=
+Definition finish (k : kind) (st : CoreOps.state) (r : res3) : M (CoreOps.result * CoreOps.state) :=
   match k with
-  | KPush => ret (CO.RPtr (res_ptr3 r), CO.push_item st (res_ptr3 r))
-  | KFlag => ret (CO.RFlag (res_flag3 r), st)
-  | KUnit => ret (CO.RUnit, st)
-  | KInt => ret (CO.RInt (res_int3 r), st)
-  | KDbl => ret (CO.RDbl (res_dbl3 r), st)
-  | KStr => s <~ CO.opt_cstr (res_ptr3 r) ;; ret (CO.RStr s, st)
-  | KEach a => l <~ CO.array_for_each a ;; ret (CO.RInts l, st)
+  | KPush => ret (CoreOps.RPtr (res_ptr3 r), CoreOps.push_item st (res_ptr3 r))
+  | KFlag => ret (CoreOps.RFlag (res_flag3 r), st)
+  | KUnit => ret (CoreOps.RUnit, st)
+  | KInt => ret (CoreOps.RInt (res_int3 r), st)
+  | KDbl => ret (CoreOps.RDbl (res_dbl3 r), st)
+  | KStr => s <~ CoreOps.opt_cstr (res_ptr3 r) ;; ret (CoreOps.RStr s, st)
+  | KEach a => l <~ CoreOps.array_for_each a ;; ret (CoreOps.RInts l, st)
   end.
 
 (** the result for the kinds that need no further read *)
-Definition enc (k : kind) (r : res3) : CO.result :=
+Definition enc (k : kind) (r : res3) : CoreOps.result :=
   match k with
-  | KPush => CO.RPtr (res_ptr3 r)
-  | KFlag => CO.RFlag (res_flag3 r)
-  | KUnit => CO.RUnit
-  | KInt => CO.RInt (res_int3 r)
-  | KDbl => CO.RDbl (res_dbl3 r)
-  | KStr => CO.RStr None
-  | KEach _ => CO.RInts []
+  | KPush => CoreOps.RPtr (res_ptr3 r)
+  | KFlag => CoreOps.RFlag (res_flag3 r)
+  | KUnit => CoreOps.RUnit
+  | KInt => CoreOps.RInt (res_int3 r)
+  | KDbl => CoreOps.RDbl (res_dbl3 r)
+  | KStr => CoreOps.RStr None
+  | KEach _ => CoreOps.RInts []
   end.
 (** the kinds whose result needs no further read of the heap *)
 Definition pure_kind (k : kind) : Prop := match k with KStr | KEach _ => False | _ => True end.
@@ -252,13 +252,13 @@ Fixpoint run_pre (l : list bytes) : M unit :=
 Definition run_main (m : option op3) : M res3 :=
   match m with Some o => run_op3 o | None => ret (R RUnit) end.
 (** the translated call, run by the proof-level interpreter, then shown *)
-Definition run_tr (t : trans) : M (CO.result * CO.state) :=
+Definition run_tr (t : trans) : M (CoreOps.result * CoreOps.state) :=
   run_pre (t_pre t) ;;; r <~ run_main (t_main t) ;; finish (t_kind t) (t_st t) r.
 
 (** the sweep as a function *)
-Definition sweep_st (h : heap) (st : CO.state) : CO.state :=
-  CO.mkState (map (CO.live_ptr h) (CO.st_items st)) (map (CO.live_ptr h) (CO.st_strs st)).
-Lemma run_sweep st h : CO.sweep st h = Ret (sweep_st h st, h).
+Definition sweep_st (h : heap) (st : CoreOps.state) : CoreOps.state :=
+  CoreOps.mkState (map (CoreOps.live_ptr h) (CoreOps.st_items st)) (map (CoreOps.live_ptr h) (CoreOps.st_strs st)).
+Lemma run_sweep st h : CoreOps.sweep st h = Ret (sweep_st h st, h).
 Proof. reflexivity. Qed.
 
 (** * reading does not change the heap; declaring a string keeps every read *)
@@ -300,7 +300,7 @@ Qed.
 (** * string arguments commute *)
 Lemma str_of_tr V st s h p pre st1 V1 :
   view_ok V h -> tr_str V st s = Some (p, pre, st1, V1) ->
-  exists h1, CO.str_of st s h = Ret ((p, st1), h1) /\ run_pre pre h = Ret (tt, h1) /\ view_ok V1 h1.
+  exists h1, CoreOps.str_of st s h = Ret ((p, st1), h1) /\ run_pre pre h = Ret (tt, h1) /\ view_ok V1 h1.
 Proof.
   intros HV E. pose proof HV as (Hn & Hk & Hv). destruct s as [|k|b|k|k]; cbn [tr_str] in E.
   - injection E as <- <- <- <-. by exists h.
@@ -308,9 +308,9 @@ Proof.
   - injection E as <- <- <- <-. exists (foreign_heap h (b ++ [0])). rewrite Hn. split; [done|]. split; [done|].
     by apply view_ok_bump.
   - destruct (v_key V _) as [q|] eqn:Eq; [|done]. injection E as <- <- <- <-. exists h.
-    cbn [CO.str_of]. by rewrite (bindM_Ret _ _ _ _ _ (Hk _ _ Eq)).
+    cbn [CoreOps.str_of]. by rewrite (bindM_Ret _ _ _ _ _ (Hk _ _ Eq)).
   - destruct (v_val V _) as [q|] eqn:Eq; [|done]. injection E as <- <- <- <-. exists h.
-    cbn [CO.str_of]. by rewrite (bindM_Ret _ _ _ _ _ (Hv _ _ Eq)).
+    cbn [CoreOps.str_of]. by rewrite (bindM_Ret _ _ _ _ _ (Hv _ _ Eq)).
 Qed.
 
 Lemma run_pre_cons c l h : run_pre (c :: l) h = run_pre l (foreign_heap h c).
@@ -323,7 +323,7 @@ Qed.
 
 Lemma strs_of_tr l : forall V st h ps pre st1 V1,
   view_ok V h -> tr_strs V st l = Some (ps, pre, st1, V1) ->
-  exists h1, CO.strs_of st l h = Ret ((ps, st1), h1) /\ run_pre pre h = Ret (tt, h1) /\ view_ok V1 h1.
+  exists h1, CoreOps.strs_of st l h = Ret ((ps, st1), h1) /\ run_pre pre h = Ret (tt, h1) /\ view_ok V1 h1.
 Proof.
   induction l as [|a l IH]; intros V st h ps pre st1 V1 HV E; cbn [tr_strs] in E.
   - injection E as <- <- <- <-. by exists h.
@@ -331,36 +331,36 @@ Proof.
     destruct (tr_strs Va sta l) as [[[[ps2 pre2] st2] V2]|] eqn:El; [|done]. injection E as <- <- <- <-.
     destruct (str_of_tr _ _ _ _ _ _ _ _ HV Ea) as (h1 & E1 & E2 & HV1).
     destruct (IH _ _ _ _ _ _ _ HV1 El) as (h2 & E3 & E4 & HV2). exists h2.
-    cbn [CO.strs_of]. rewrite (bindM_Ret _ _ _ _ _ E1). cbn [fst snd]. rewrite (bindM_Ret _ _ _ _ _ E3).
+    cbn [CoreOps.strs_of]. rewrite (bindM_Ret _ _ _ _ _ E1). cbn [fst snd]. rewrite (bindM_Ret _ _ _ _ _ E3).
     split; [done|]. split; [|done]. by rewrite (run_pre_app _ _ _ _ E2).
 Qed.
 
 (** * the commutation, by shape of the call *)
-Lemma T0_commute st k m t (F : M (CO.result * CO.state)) h :
+Lemma T0_commute st k m t (F : M (CoreOps.result * CoreOps.state)) h :
   T0 st k m = Some t -> (forall h1, F h1 = (r <~ run_op3 m ;; finish k st r) h1) -> F h = run_tr t h.
 Proof. intros [= <-] HF. apply HF. Qed.
 
-Lemma T1_commute V st s k f t (F : ptr -> CO.state -> M (CO.result * CO.state)) h :
+Lemma T1_commute V st s k f t (F : ptr -> CoreOps.state -> M (CoreOps.result * CoreOps.state)) h :
   view_ok V h -> T1 V st s k f = Some t ->
   (forall p st1 h1, F p st1 h1 = (r <~ run_op3 (f p) ;; finish k st1 r) h1) ->
-  CO.with_str st s F h = run_tr t h.
+  CoreOps.with_str st s F h = run_tr t h.
 Proof.
   intros HV E HF. unfold T1 in E. destruct (tr_str V st s) as [[[[p pre] st1] V1]|] eqn:Es; [|done]. injection E as <-.
   destruct (str_of_tr _ _ _ _ _ _ _ _ HV Es) as (h1 & E1 & E2 & _).
-  unfold CO.with_str. rewrite (bindM_Ret _ _ _ _ _ E1). cbn [fst snd].
+  unfold CoreOps.with_str. rewrite (bindM_Ret _ _ _ _ _ E1). cbn [fst snd].
   unfold run_tr. cbn [t_pre t_main t_kind t_st run_main]. rewrite (bindM_Ret _ _ _ _ _ E2). apply HF.
 Qed.
 
-Lemma T2_commute V st s v k f t (F : ptr -> ptr -> CO.state -> M (CO.result * CO.state)) h :
+Lemma T2_commute V st s v k f t (F : ptr -> ptr -> CoreOps.state -> M (CoreOps.result * CoreOps.state)) h :
   view_ok V h -> T2 V st s v k f = Some t ->
   (forall p q st2 h2, F p q st2 h2 = (r <~ run_op3 (f p q) ;; finish k st2 r) h2) ->
-  CO.with_str st s (fun p st' => CO.with_str st' v (fun q st'' => F p q st'')) h = run_tr t h.
+  CoreOps.with_str st s (fun p st' => CoreOps.with_str st' v (fun q st'' => F p q st'')) h = run_tr t h.
 Proof.
   intros HV E HF. unfold T2 in E. destruct (tr_str V st s) as [[[[p pre1] st1] V1]|] eqn:Es; [|done].
   destruct (tr_str V1 st1 v) as [[[[q pre2] st2] V2]|] eqn:Ev; [|done]. injection E as <-.
   destruct (str_of_tr _ _ _ _ _ _ _ _ HV Es) as (h1 & E1 & E2 & HV1).
   destruct (str_of_tr _ _ _ _ _ _ _ _ HV1 Ev) as (h2 & E3 & E4 & _).
-  unfold CO.with_str. rewrite (bindM_Ret _ _ _ _ _ E1). cbn [fst snd]. rewrite (bindM_Ret _ _ _ _ _ E3). cbn [fst snd].
+  unfold CoreOps.with_str. rewrite (bindM_Ret _ _ _ _ _ E1). cbn [fst snd]. rewrite (bindM_Ret _ _ _ _ _ E3). cbn [fst snd].
   unfold run_tr. cbn [t_pre t_main t_kind t_st run_main].
   assert (Hp : run_pre (pre1 ++ pre2) h = Ret (tt, h2)) by (by rewrite (run_pre_app _ _ _ _ E2)).
   rewrite (bindM_Ret _ _ _ _ _ Hp). apply HF.
@@ -378,7 +378,7 @@ Ltac dm1 :=
 Ltac same_call :=
   intros;
   cbn [run_op3 run_op2 run_op run_add_to_object finish A3];
-  unfold CO.r_push, CO.r_flag, CO.r_unit,
+  unfold CoreOps.r_push, CoreOps.r_flag, CoreOps.r_unit,
     cJSON_CreateNull, cJSON_CreateTrue, cJSON_CreateFalse, cJSON_CreateBool, cJSON_CreateArray, cJSON_CreateObject,
     cJSON_AddItemToObject, cJSON_AddItemToObjectCS,
     cJSON_DeleteItemFromObject, cJSON_DeleteItemFromObjectCaseSensitive,
@@ -392,14 +392,14 @@ Ltac same_call :=
 (** THE COMMUTATION, before the sweep: for every translatable operation the extracted interpreter's
     step is the translated call of the proof-level interpreter, then the result encoding *)
 Theorem run_op_raw_commutes V st o t h :
-  view_ok V h -> tr V st o = Some t -> CO.run_op_raw nv st o h = run_tr t h.
+  view_ok V h -> tr V st o = Some t -> CoreOps.run_op_raw nv st o h = run_tr t h.
 Proof.
   intros HV E.
   destruct o as [| | |b|d|s|s| | |s|c|c|nums count|nums count|nums count|strs count|i recurse|a i|ob s i|ob s i|a i|ob s i
                  |ob s|ob s|ob s|ob s b|ob s d|ob s v|ob s v|ob s|ob s|p i|a which|ob s|ob s|i|a which|ob s|ob s
                  |a which i|p i r|a which r|ob s r|ob s r|a|a index|ob s|ob s|ob s|i|i|a|i d|i n|i s|i b|hk|init|s|b
                  |i c|i n p|n|i];
-    cbn [tr] in E; try discriminate E; cbn [CO.run_op_raw];
+    cbn [tr] in E; try discriminate E; cbn [CoreOps.run_op_raw];
     try (eapply T0_commute; [exact E|]; same_call);
     try (eapply T1_commute; [exact HV|exact E|]; same_call);
     try (eapply T2_commute; [exact HV|exact E|]; same_call).
@@ -452,22 +452,22 @@ Proof. unfold bindM. by intros ->. Qed.
     then the sweep of the pools. *)
 Theorem run_op_commutes V st o t h :
   view_ok V h -> tr V st o = Some t ->
-  CO.run_op nv st o h =
+  CoreOps.run_op nv st o h =
   (rs <~ run_ops3 (tr_ops t) ;; x <~ finish (t_kind t) (t_st t) (main_res t rs) ;;
-   st' <~ CO.sweep (snd x) ;; ret (fst x, st')) h.
+   st' <~ CoreOps.sweep (snd x) ;; ret (fst x, st')) h.
 Proof.
-  intros HV E. unfold CO.run_op. rewrite (bindM_ext_l _ (run_tr t)) by (by apply (run_op_raw_commutes V)).
+  intros HV E. unfold CoreOps.run_op. rewrite (bindM_ext_l _ (run_tr t)) by (by apply (run_op_raw_commutes V)).
   rewrite (bindM_ext_l _ _ _ _ (run_tr_ops t h)). by rewrite bindM_assoc.
 Qed.
 
 (** explicit forms *)
 Corollary run_op_commutes_Err V st o t h e :
-  view_ok V h -> tr V st o = Some t -> run_ops3 (tr_ops t) h = Err e -> CO.run_op nv st o h = Err e.
+  view_ok V h -> tr V st o = Some t -> run_ops3 (tr_ops t) h = Err e -> CoreOps.run_op nv st o h = Err e.
 Proof. intros HV E Hr. rewrite (run_op_commutes V st o t h HV E). unfold bindM at 1. by rewrite Hr. Qed.
 
 Corollary run_op_commutes_Ret V st o t h rs h' :
   view_ok V h -> tr V st o = Some t -> pure_kind (t_kind t) -> run_ops3 (tr_ops t) h = Ret (rs, h') ->
-  CO.run_op nv st o h =
+  CoreOps.run_op nv st o h =
   Ret ((enc (t_kind t) (main_res t rs), sweep_st h' (new_pools (t_kind t) (t_st t) (main_res t rs))), h').
 Proof.
   intros HV E Hk Hr. rewrite (run_op_commutes V st o t h HV E). rewrite (bindM_Ret _ _ _ _ _ Hr).
@@ -476,8 +476,8 @@ Qed.
 
 Corollary run_op_commutes_Ret_str V st o t h rs h' s :
   view_ok V h -> tr V st o = Some t -> t_kind t = KStr -> run_ops3 (tr_ops t) h = Ret (rs, h') ->
-  CO.opt_cstr (res_ptr3 (main_res t rs)) h' = Ret (s, h') ->
-  CO.run_op nv st o h = Ret ((CO.RStr s, sweep_st h' (t_st t)), h').
+  CoreOps.opt_cstr (res_ptr3 (main_res t rs)) h' = Ret (s, h') ->
+  CoreOps.run_op nv st o h = Ret ((CoreOps.RStr s, sweep_st h' (t_st t)), h').
 Proof.
   intros HV E Hk Hr Hs. rewrite (run_op_commutes V st o t h HV E). rewrite (bindM_Ret _ _ _ _ _ Hr).
   rewrite Hk. cbn [finish]. rewrite bindM_assoc. by rewrite (bindM_Ret _ _ _ _ _ Hs).
@@ -485,8 +485,8 @@ Qed.
 
 Corollary run_op_commutes_Ret_each V st o t h rs h' a l :
   view_ok V h -> tr V st o = Some t -> t_kind t = KEach a -> run_ops3 (tr_ops t) h = Ret (rs, h') ->
-  CO.array_for_each a h' = Ret (l, h') ->
-  CO.run_op nv st o h = Ret ((CO.RInts l, sweep_st h' (t_st t)), h').
+  CoreOps.array_for_each a h' = Ret (l, h') ->
+  CoreOps.run_op nv st o h = Ret ((CoreOps.RInts l, sweep_st h' (t_st t)), h').
 Proof.
   intros HV E Hk Hr Hs. rewrite (run_op_commutes V st o t h HV E). rewrite (bindM_Ret _ _ _ _ _ Hr).
   rewrite Hk. cbn [finish]. rewrite bindM_assoc. by rewrite (bindM_Ret _ _ _ _ _ Hs).
@@ -531,7 +531,7 @@ Qed.
 
 Lemma tr_str_strs V st s p pre st1 V1 :
   tr_str V st s = Some (p, pre, st1, V1) ->
-  CO.st_strs st1 = CO.st_strs st ++ (Some <$> seq_pos (v_next V) (length pre)) /\
+  CoreOps.st_strs st1 = CoreOps.st_strs st ++ (Some <$> seq_pos (v_next V) (length pre)) /\
   v_next V1 = pos_shift (v_next V) (length pre).
 Proof.
   destruct s as [|k|b|k|k]; cbn [tr_str]; intros E.
@@ -543,7 +543,7 @@ Proof.
 Qed.
 Lemma tr_strs_strs l : forall V st ps pre st1 V1,
   tr_strs V st l = Some (ps, pre, st1, V1) ->
-  CO.st_strs st1 = CO.st_strs st ++ (Some <$> seq_pos (v_next V) (length pre)) /\
+  CoreOps.st_strs st1 = CoreOps.st_strs st ++ (Some <$> seq_pos (v_next V) (length pre)) /\
   v_next V1 = pos_shift (v_next V) (length pre).
 Proof.
   induction l as [|a l IH]; intros V st ps pre st1 V1 E; cbn [tr_strs] in E.
@@ -557,7 +557,7 @@ Proof.
 Qed.
 
 Lemma tr_strs_pushed V st o t :
-  tr V st o = Some t -> CO.st_strs (t_st t) = CO.st_strs st ++ (Some <$> seq_pos (v_next V) (length (t_pre t))).
+  tr V st o = Some t -> CoreOps.st_strs (t_st t) = CoreOps.st_strs st ++ (Some <$> seq_pos (v_next V) (length (t_pre t))).
 Proof.
   intros E.
   destruct o; cbn [tr] in E; try discriminate E; unfold T0, T1, T2 in E;
@@ -595,12 +595,12 @@ Qed.
     extended by the returned item for the kind [KPush] — then both are swept. *)
 Theorem pools_after_call V st o t h rs h' :
   view_ok V h -> tr V st o = Some t -> run_ops3 (tr_ops t) h = Ret (rs, h') ->
-  CO.st_strs (t_st t) = CO.st_strs st ++ (res_ptr3 <$> take (length (t_pre t)) rs) /\
-  CO.st_items (new_pools (t_kind t) (t_st t) (main_res t rs)) =
-    CO.st_items (t_st t) ++ match t_kind t with KPush => [res_ptr3 (main_res t rs)] | _ => [] end.
+  CoreOps.st_strs (t_st t) = CoreOps.st_strs st ++ (res_ptr3 <$> take (length (t_pre t)) rs) /\
+  CoreOps.st_items (new_pools (t_kind t) (t_st t) (main_res t rs)) =
+    CoreOps.st_items (t_st t) ++ match t_kind t with KPush => [res_ptr3 (main_res t rs)] | _ => [] end.
 Proof.
   intros (Hn & _) E Hr. split.
   - rewrite (tr_strs_pushed _ _ _ _ E), Hn. f_equal. unfold tr_ops in Hr.
     rewrite (run_decls_results _ _ _ _ _ Hr). by rewrite <- list_fmap_compose.
-  - destruct (t_kind t); cbn [new_pools CO.push_item CO.st_items]; by rewrite ?app_nil_r.
+  - destruct (t_kind t); cbn [new_pools CoreOps.push_item CoreOps.st_items]; by rewrite ?app_nil_r.
 Qed.
